@@ -1604,15 +1604,10 @@ impl DhtNetworkManager {
             return;
         }
 
-        if let Some(distance) = node.distance.as_ref()
-            && distance.len() == 32
-        {
-            let mut key_bytes = [0u8; 32];
-            key_bytes.copy_from_slice(&distance[..32]);
-            node.cached_dht_key = Some(DhtKey::from_bytes(key_bytes));
-            return;
-        }
-
+        // Both callers pass nodes named in a remote peer's reply. Their position in
+        // the key space follows from the peer id alone; the `distance` field is
+        // whatever the replying peer chose to write there and must not be believed
+        // (a liar could place any node right on the target key and end the lookup).
         node.cached_dht_key = Self::parse_peer_id_to_key(&node.peer_id);
     }
 
